@@ -245,29 +245,6 @@ func main() {
 var extractors []func()
 
 func extractAddr() {
-	g := gen("Addr")
-	f := parse("pkg/policy/address.go")
-	pe := fn(f, "", "parseEmailAddress")
-	pm := fn(f, "", "parseMailboxName")
-	vd := fn(f, "", "ValidateDomainPart")
-	var sp, nsp *string
-	if l := indexByteLits(pe); len(l) == 1 {
-		sp = &l[0]
-	}
-	if l := indexByteLits(pm); len(l) == 1 {
-		nsp = &l[0]
-	}
-	bl := func(s *string) string {
-		if s == nil {
-			return "none"
-		}
-		return "some " + byteList(*s)
-	}
-	g.def("specials", "Option (List Nat)", bl(sp), "bytes of the literal `parseEmailAddress` passes to strings.IndexByte (copied unquoted)")
-	g.def("nameSpecials", "Option (List Nat)", bl(nsp), "bytes of the literal `parseMailboxName` passes to strings.IndexByte")
-	cmpDef(g, "maxAddr", pe, "len(address)", "", "address length test in parseEmailAddress")
-	cmpDef(g, "maxLocal", pe, "i", ">", "local-part length test in parseEmailAddress (index of the unquoted '@')")
-	cmpDef(g, "maxDomain", vd, "ln", ">", "domain length test in ValidateDomainPart")
-	cmpDef(g, "minBracket", vd, "ln", ">=", "minimum length of a bracketed IP-literal domain")
-	cmpDef(g, "maxLabel", vd, "labelLen", "", "label length test in ValidateDomainPart")
+	// the facts are computed structurally (roles instead of local names, helpers found by following calls) in addr2.go
+	addrEmitTables(gen("Addr"))
 }
